@@ -40,6 +40,16 @@ var g2lStd = map[string]stdFn{
 	"bits.Len64":             {"len64", false},
 	"strconv.Itoa":           {"itoa", false},
 	"strconv.Atoi":           {"atoi", false},
+	"strconv.ParseInt":       {"parseInt", false},
+	"strconv.FormatInt":      {"formatInt", false},
+	"strings.SplitN":         {"splitN", false},
+	"bytes.Count":            {"count", false},
+	"utf8.DecodeRune":        {"decodeRune", false},
+	"bytes.Contains":         {"contains", false},
+	"bytes.Equal":            {"bytesEq", false},
+	"bytes.LastIndex":        {"lastIndex", false},
+	"bytes.TrimSuffix":       {"trimSuffix", false},
+	"bytes.TrimPrefix":       {"trimPrefix", false},
 	"strings.Split":          {"split", false},
 	"strings.Join":           {"join", false},
 	"strings.ToLower":        {"toLowerASCIIorUnicode", false},
@@ -88,7 +98,7 @@ func (f *g2lFn) call(b *binds, e *ast.CallExpr) string {
 		}
 		return f.convert(b, tv.Type, e.Args[0], e)
 	}
-	if p, ok := f.u.absCalls[show(e.Fun)]; ok {
+	if p, ok := f.u.absCalls[strings.Join(strings.Fields(show(e.Fun)), "")]; ok {
 		args := f.args(b, e)
 		if strings.HasSuffix(p, ":recv") {
 			p = strings.TrimSuffix(p, ":recv")
@@ -967,6 +977,8 @@ func (f *g2lFn) sprintf(b *binds, e *ast.CallExpr) string {
 			}
 		case (verb == 's' || verb == 'v') && isBytesLike(at) && width == 0:
 			parts = append(parts, x)
+		case (verb == 's' || verb == 'v') && width == 0 && f.absStringer(at) != "":
+			parts = append(parts, "("+f.absStringer(at)+" "+x+")")
 		default:
 			f.bad(e, "Sprintf verb %%%c of %s", verb, at)
 		}
@@ -1026,4 +1038,21 @@ func (f *g2lFn) exprStmtCall(c *ast.CallExpr) ([]string, bool) {
 		}
 	}
 	return nil, false
+}
+
+// absStringer: the abstract function standing for T.String() of an abstract named type (configured as "T.String")
+func (f *g2lFn) absStringer(t types.Type) string {
+	n, ok := t.(*types.Named)
+	if !ok {
+		return ""
+	}
+	if _, ok := f.u.absTypes[n.Obj().Name()]; !ok {
+		return ""
+	}
+	p, ok := f.u.absFuncs[n.Obj().Name()+".String"]
+	if !ok {
+		return ""
+	}
+	f.useAbs(p)
+	return p
 }
